@@ -6,8 +6,21 @@ OBLIGATIONS = ['Cvise.C04.backup_preserves', 'Cvise.C04.backup_creates', 'Cvise.
                'Cvise.C04.modes_lost_without_restore', 'Cvise.C04.shipped_backup_guard']
 
 
+def probe(ctx, diffs=None):
+    # LinesPass.new works on the user's own file: when its helper cannot run, or the sanity check of the reformatted file
+    # raises, nothing but the test case may be left in the working directory (the probe is shared with C11)
+    import check_C11
+    check_C11.raising_helper_probe(ctx)
+
+
 def run(ctx):
-    return run_world(ctx, 'C04', OBLIGATIONS, W.oracle_C04,
+    if ctx.replay:
+        import json
+        if json.load(open(ctx.replay)).get('kind') == 'raising-helper':
+            probe(ctx)
+            print('replayed ->', 'fails' if ctx.violations else 'holds')
+            return 1 if ctx.violations else 0
+    return run_world(ctx, 'C04', OBLIGATIONS, W.oracle_C04, shim_part=probe,
                      rule='recursive snapshot (path, sha1, mode) of a working directory with sub-directories, odd modes, a pre-existing .orig and unrelated files, before and after CVise.reduce / run_pass '
                           'for success, error and no-progress exits, tidy on/off: only test cases may change, X.orig = original bytes, existing .orig untouched, modes restored, cwd unchanged. '
                           'non-trivial = run with commits')
